@@ -160,7 +160,7 @@ pub fn run_c12(a: &Args) {
     // segment strings: runs in different scripts (Latin-1 letters whose bytes are lead bytes of the CJK codepages included) joined by
     // colour codes (^8 resets the codepage), carets, escaped characters and codepage letters: every sequence of up to 4 segments of
     // one pool, then random longer ones
-    let segs: Vec<&str> = vec!["\u{9348}", "\u{fa16}", "^9", "\u{15e}", "\u{45e}", "\u{b2}", "\u{ff12}", "\u{bd}", "\u{663}", "\u{7f8e}", "\u{e9}", "\u{e9}\u{e0}", "\u{448}", "^8", "^1", "^", "L", "J", "\u{ff8f}", "a", "|", "\u{3b1}", "\u{e9}\u{e0}\u{fc}", "\u{ff}\u{fe}", "\u{fe}\u{ff}", "\u{ef}\u{bb}\u{bf}", "\u{44f}\u{44e}", "\u{83}", "\u{8a}\u{9f}", "\u{101}\u{123}", "\u{2019}\u{201c}\u{201e}"];   // runs whose bytes look like a byte-order mark; C1 code points (characters of some codepages only); Baltic-only letters; typographic quotes (present in every single-byte codepage, at different bytes in ISO 8859 look-alikes)
+    let segs: Vec<&str> = vec!["\u{9348}", "\u{fa16}", "^9", "\u{15e}", "\u{45e}", "\u{b2}", "\u{ff12}", "\u{bd}", "\u{663}", "\u{7f8e}", "\u{e9}", "\u{e9}\u{e0}", "\u{448}", "^8", "^1", "^", "L", "J", "\u{ff8f}", "a", "|", "\u{3b1}", "\u{e9}\u{e0}\u{fc}", "\u{ff}\u{fe}", "\u{fe}\u{ff}", "\u{ef}\u{bb}\u{bf}", "\u{44f}\u{44e}", "\u{83}", "\u{8a}\u{9f}", "\u{101}\u{123}", "\u{2019}\u{201c}\u{201e}", "\u{4e5b}", "\u{7107}"];   // runs whose bytes look like a byte-order mark; C1 code points (characters of some codepages only); Baltic-only letters; typographic quotes (present in every single-byte codepage, at different bytes in ISO 8859 look-alikes)
     let smax = if a.thorough() { 4 } else { 3 };
     let mut sidx: Vec<usize> = vec![];
     loop {
